@@ -114,7 +114,8 @@ def subdivideSpecB (avg : Rat) (minSize : Int) (inp out : Table) : List String :
       (pieces.getLast?.map (·.e)) == some m.e &&
       ((pieces.zip (pieces.drop 1)).all (fun p => p.1.e == p.2.s)) &&
       (pieces.all fun a => pieces.all fun b => (a.e - a.s) - (b.e - b.s) ≤ 1) &&
-      (pieces.all fun a => a.s < a.e)
+      -- bins have positive length whenever that is possible (no more bins than bases)
+      (decide ((n : Int) > span) || pieces.all fun a => a.s < a.e)
     else pieces.isEmpty
   let allInside := out.all fun r => regions.any (fun m => inside m r)
   (if perRegion then [] else ["subdivide_regions"]) ++ (if allInside then [] else ["subdivide_inside"])
